@@ -1,0 +1,43 @@
+//go:build verif
+
+package cmd
+
+// Contracts for the verification harness in /verif (comment-only file).
+
+// ---------------------------------------------------------------------------------------------
+// C18: nothing runs unless parsing and typechecking succeed.
+//
+// Ghost state records the observable events of one CLI run:
+//   parsed, tchecked : 0 = not attempted, 1 = succeeded, 2 = failed
+//   executed         : the interpreter was started (the only source of program output)
+
+//@ ghost executed bool
+//@ ghost parsed int
+//@ ghost tchecked int
+//@ spec flagBool(name string) *bool
+
+// The three phases are event sources; their ghost effects are definitional (what they return IS the event).
+//@ external grits/parser.ParseFile
+//@   emits parsed = ite(result3 == nil, 1, 2)
+//@   ensures result3 == nil ==> result2 != nil        // a successful parse returns an environment (assumed here)
+//@ external grits/process.Typecheck
+//@   emits tchecked = ite(result == nil, 1, 2)
+//@ external grits/process.InitializeProcesses
+//@   emits executed = true
+// The other run modes (benchmarks, web server) are outside the property's scope: assumed not to start the
+// interpreter on the given file.
+//@ external grits/benchmarks.SampleBenchmarks
+//@ external grits/benchmarks.BenchmarkFile
+//@ external grits/webserver.SetupAPI
+
+//@ macro flagOn(name string) bool = deref(flagBool(name))
+//@ macro typecheckWanted() bool = !flagOn("notypecheck") && flagOn("typecheck")
+//@ macro executeWanted() bool = !flagOn("noexecute") && flagOn("execute")
+
+//@ contract Cli
+//@   requires !executed && parsed == 0 && tchecked == 0
+//@   ensures C18.gate: executed ==> parsed == 1 && (tchecked == 1 || (tchecked == 0 && !typecheckWanted())) && executeWanted()
+//@   ensures C18.noexecute: flagOn("noexecute") ==> !executed
+//@   ensures C18.errors: parsed != 2 && tchecked != 2
+//@   ensures C18.checked: parsed == 1 && typecheckWanted() ==> tchecked == 1
+//@   safety C18
